@@ -145,7 +145,11 @@ impl Db {
     }
 
     fn open_inner(in_memory: bool) -> Result<Self> {
+        #[cfg(feature = "verif")]
+        crate::verif::store_step(if in_memory { "open_memory" } else { "open_disk" });
         let mut config = crate::config::open()?;
+        #[cfg(feature = "verif")]
+        crate::verif::store_step("read_meta");
 
         let hash = config.hash_assets();
 
@@ -199,6 +203,8 @@ impl Db {
 
             let mut writer = db.index.writer(50_000_000)?;
             writer.delete_all_documents()?;
+            #[cfg(feature = "verif")]
+            crate::verif::store_step("delete_all");
 
             for name in config.assets() {
                 if name == SOURCES_BIN_GZ {
@@ -211,27 +217,54 @@ impl Db {
                 }
             }
 
+            #[cfg(feature = "verif")]
+            crate::verif::store_step("before_commit");
             writer.commit()?;
+            #[cfg(feature = "verif")]
+            crate::verif::store_step("after_commit");
             db.reader.reload()?;
+            #[cfg(feature = "verif")]
+            crate::verif::store_step("after_reload");
 
             config.meta.version = Some(config.this_version.to_owned());
             config.meta.database_hash = Some(hash);
 
             if !in_memory {
                 config.write_meta()?;
+                #[cfg(feature = "verif")]
+                crate::verif::store_step("after_write_meta");
             }
         }
 
+        #[cfg(feature = "verif")]
+        crate::verif::store_step("ready");
         Ok(db)
     }
 
     /// Perform a lookup over the given string.
     pub(crate) fn lookup(&self, query: &str) -> Result<Option<Match>, LookupError> {
+        #[cfg(feature = "verif")]
+        let query_text = query;
         let searcher = self.reader.searcher();
 
         let query_parser = QueryParser::for_index(&self.index, vec![self.field_name]);
         let query = query_parser.parse_query(query)?;
         let top_docs = searcher.search(&query, &TopDocs::with_limit(1))?;
+
+        #[cfg(feature = "verif")]
+        {
+            let mut top = Vec::new();
+
+            for (score, id) in searcher.search(&query, &TopDocs::with_limit(8))? {
+                let doc = searcher.doc(id)?;
+
+                if let Some(Value::Bytes(data)) = doc.get_first(self.field_data) {
+                    top.push((score, crate::verif::doc_key(data)));
+                }
+            }
+
+            crate::verif::lookup(query_text, &top);
+        }
 
         for (_score, id) in top_docs {
             let doc = searcher.doc(id)?;
@@ -256,12 +289,16 @@ impl Db {
         for c in doc.constants {
             let mut doc = Document::default();
             doc.add_bytes(self.field_data, serde_cbor::to_vec(&c)?);
+            #[cfg(feature = "verif")]
+            let key = crate::verif::doc_key(&serde_cbor::to_vec(&c)?);
 
             for token in &c.tokens {
                 doc.add_text(self.field_name, token.as_ref());
             }
 
             writer.add_document(doc)?;
+            #[cfg(feature = "verif")]
+            crate::verif::add_document(key);
         }
 
         Ok(())
@@ -277,17 +314,32 @@ fn open_index(config: &crate::config::Config) -> Result<(bool, Index)> {
     if !force_rebuild {
         if let Ok(index) = Index::open_in_dir(&config.index_path) {
             log::trace!("opened index: {}", config.index_path.display());
+            #[cfg(feature = "verif")]
+            crate::verif::store_step("opened_index");
             return Ok((false, index));
         }
     }
 
     if config.index_path.is_dir() {
         log::info!("removing index: {}", config.index_path.display());
+        #[cfg(feature = "verif")]
+        crate::verif::store_step("before_remove_index");
         fs::remove_dir_all(&config.index_path)?;
     }
 
+    #[cfg(feature = "verif")]
+    crate::verif::store_step("after_remove_index");
     fs::create_dir_all(&config.index_path)?;
+    #[cfg(feature = "verif")]
+    crate::verif::store_step("after_create_dir");
     let schema = build_schema();
+    #[cfg(feature = "verif")]
+    {
+        let index = Index::create_in_dir(&config.index_path, schema)?;
+        crate::verif::store_step("after_create_index");
+        return Ok((true, index));
+    }
+    #[cfg(not(feature = "verif"))]
     Ok((true, Index::create_in_dir(&config.index_path, schema)?))
 }
 
